@@ -31,13 +31,42 @@ func edgeConds(b *ssa.BasicBlock) []Cond {
 		}
 		if iff, ok := p.Instrs[len(p.Instrs)-1].(*ssa.If); ok {
 			if p.Succs[0] == x && p.Succs[1] != x {
-				out = append(out, Cond{iff.Cond, true})
+				out = append(out, normCond(iff.Cond, true))
 			} else if p.Succs[1] == x && p.Succs[0] != x {
-				out = append(out, Cond{iff.Cond, false})
+				out = append(out, normCond(iff.Cond, false))
 			}
 		}
 	}
 	return out
+}
+
+// normCond strips the spellings of a boolean test that do not change it: !x, x == true, x != false, ...
+func normCond(v ssa.Value, pol bool) Cond {
+	for {
+		switch t := v.(type) {
+		case *ssa.UnOp:
+			if t.Op == token.NOT {
+				v, pol = t.X, !pol
+				continue
+			}
+		case *ssa.BinOp:
+			if t.Op == token.EQL || t.Op == token.NEQ {
+				x, y := t.X, t.Y
+				if _, isC := x.(*ssa.Const); isC {
+					x, y = y, x
+				}
+				if k, isC := y.(*ssa.Const); isC && k.Value != nil && k.Value.Kind() == constant.Bool {
+					same := constant.BoolVal(k.Value) == (t.Op == token.EQL)
+					v = x
+					if !same {
+						pol = !pol
+					}
+					continue
+				}
+			}
+		}
+		return Cond{v, pol}
+	}
 }
 
 // dominates: a dominates b (reflexive).
